@@ -106,6 +106,15 @@ func PrintableBytes(data []byte) bool {
 }
 
 func BytesFromBuffer(r io.Reader, length int) ([]byte, error) {
+	if length < 0 {
+		return nil, fmt.Errorf("[BytesFromBuffer] Invalid length (%d)", length)
+	}
+
+	// don't allocate more than the reader can deliver (e.g. a length field that lies about the data that follows)
+	if lr, ok := r.(interface{ Len() int }); ok && length > lr.Len() {
+		return nil, fmt.Errorf("[BytesFromBuffer] Req:%d, Available:%d: %w", length, lr.Len(), io.ErrUnexpectedEOF)
+	}
+
 	tmp := make([]byte, length)
 
 	n, err := io.ReadFull(r, tmp)
